@@ -185,7 +185,7 @@ theorem cmp_eq_one (a b : Bytes) : (cmp a b == 1) = bytesLt b a := by
   have := Mash.bytesLt_asymm h1
   rw [h2] at this; cases this
 
-theorem canonBody_loop (f : Bytes → Bool) (seq rc : Bytes) (k : Nat) (hl : rc.length = seq.length)
+theorem canonBody_loop (h : List Bytes → Bool) (seq rc : Bytes) (k : Nat) (hl : rc.length = seq.length)
     (post : Option (List Bytes) × List Bytes → Option (List Bytes))
     (hp1 : ∀ r l, post (some r, l) = some r) (hp2 : ∀ l, post (none, l) = some l) :
     ∀ (n i : Nat) (log : List Bytes), (n = 0 ∨ i + n + k ≤ seq.length + 1) →
@@ -193,20 +193,22 @@ theorem canonBody_loop (f : Bytes → Bool) (seq rc : Bytes) (k : Nat) (hl : rc.
             (slice seq i (i + ↑k)).bind fun kmer =>
               (slice rc (len rc - i - ↑k) (len rc - i)).bind fun kmerRC =>
                 if bytesLt kmerRC kmer = true then
-                  if (!f kmerRC) = true then some (ForInStep.done (some (__s.snd ++ [kmerRC]), __s.snd ++ [kmerRC]))
+                  if (!h (__s.snd ++ [kmerRC])) = true then
+                    some (ForInStep.done (some (__s.snd ++ [kmerRC]), __s.snd ++ [kmerRC]))
                   else some (ForInStep.yield (none, __s.snd ++ [kmerRC]))
                 else
-                  if (!f kmer) = true then some (ForInStep.done (some (__s.snd ++ [kmer]), __s.snd ++ [kmer]))
+                  if (!h (__s.snd ++ [kmer])) = true then
+                    some (ForInStep.done (some (__s.snd ++ [kmer]), __s.snd ++ [kmer]))
                   else some (ForInStep.yield (none, __s.snd ++ [kmer]))).bind
         post
-      = some (log ++ Sequtil.canonLoop f seq rc k i n) := by
+      = some (takeThroughH h log ((List.range' i n).map (Sequtil.canonItem seq rc k))) := by
   intro n
   induction n with
-  | zero => intro i log _; simp [Sequtil.canonLoop, hp2]
+  | zero => intro i log _; simp [takeThroughH, hp2]
   | succ n ih =>
     intro i log hb
     have hb' : i + k + n ≤ seq.length := by omega
-    simp only [List.range'_succ, List.map_cons, List.forIn_cons, Sequtil.canonLoop]
+    simp only [List.range'_succ, List.map_cons, List.forIn_cons, takeThroughH]
     have e1 : Int.ofNat i + (k : Int) = ((i + k : Nat) : Int) := by simp
     have e2 : len rc - Int.ofNat i - (k : Int) = ((rc.length - i - k : Nat) : Int) := by
       unfold len; simp only [Int.ofNat_eq_natCast]; omega
@@ -222,31 +224,36 @@ theorem canonBody_loop (f : Bytes → Bool) (seq rc : Bytes) (k : Nat) (hl : rc.
     unfold Sequtil.canonItem
     simp only []
     have ih' := fun log => ih (i + 1) log (by omega)
+    unfold Sequtil.canonItem at ih'
+    simp only [] at ih'
     split
-    · cases hf : f (List.take k (List.drop (rc.length - i - k) rc))
+    · cases hf : h (log ++ [List.take k (List.drop (rc.length - i - k) rc)])
       · simp only [Bool.not_false, if_true, Option.bind_eq_bind, Option.bind_some, Option.pure_def, hp1,
           Bool.false_eq_true, if_false]
-      · simp only [Bool.not_true, Bool.false_eq_true, if_false, if_true, Option.bind_eq_bind, Option.bind_some, ih',
-          List.append_assoc, List.singleton_append]
-    · cases hf : f (List.take k (List.drop i seq))
+      · simp only [Bool.not_true, Bool.false_eq_true, if_false, if_true, Option.bind_eq_bind, Option.bind_some, ih']
+    · cases hf : h (log ++ [List.take k (List.drop i seq)])
       · simp only [Bool.not_false, if_true, Option.bind_eq_bind, Option.bind_some, Option.pure_def, hp1,
           Bool.false_eq_true, if_false]
-      · simp only [Bool.not_true, Bool.false_eq_true, if_false, if_true, Option.bind_eq_bind, Option.bind_some, ih',
-          List.append_assoc, List.singleton_append]
+      · simp only [Bool.not_true, Bool.false_eq_true, if_false, if_true, Option.bind_eq_bind, Option.bind_some, ih']
 
-theorem CanonicalSubsequences_eq (hF : GoSrc.CanonicalSubsequences_Found = true)
+/-- The generated `CanonicalSubsequences` with ANY deterministic consumer `h` (stateful ones included:
+`h` sees the whole log of items handed over so far): the log is the model's item list cut after the
+first item at which `h` says stop. -/
+theorem CanonicalSubsequences_hist (hF : GoSrc.CanonicalSubsequences_Found = true)
     (hR : GoSrc.ReverseComplement_Found = true) (hC : GoSrc.complementByte_Found = true)
-    (tbl : List UInt8) (f : Bytes → Bool) (seq : Bytes) (k : Nat) :
-    GoSrc.CanonicalSubsequences tbl seq (k : Int) f = Sequtil.canonicalLog tbl f seq k := by
+    (tbl : List UInt8) (h : List Bytes → Bool) (seq : Bytes) (k : Nat) :
+    GoSrc.CanonicalSubsequences tbl seq (k : Int) h
+      = (Sequtil.canonical tbl seq k).map (takeThroughH h []) := by
   first
   | exact absurd hF (by decide)
-  | (unfold GoSrc.CanonicalSubsequences Sequtil.canonicalLog
+  | (unfold GoSrc.CanonicalSubsequences
      simp only [Option.pure_def, Option.bind_eq_bind, ReverseComplement_eq hR hC]
      cases hrc : Sequtil.revComp tbl [] seq with
-     | none => rfl
+     | none => simp [Sequtil.canonical, Sequtil.canonicalLog, hrc]
      | some rc =>
        have hl := Mash.revComp_length hrc
-       simp only [Option.bind_some]
+       rw [Mash.canonical_eq k hrc, List.range_eq_range']
+       simp only [Option.bind_some, Option.map_some]
        have hn : upTo (len seq - (k : Int) + 1) = (List.range' 0 (seq.length + 1 - k)).map Int.ofNat := by
          unfold upTo len
          rw [List.range_eq_range']
@@ -254,12 +261,47 @@ theorem CanonicalSubsequences_eq (hF : GoSrc.CanonicalSubsequences_Found = true)
          omega
        rw [hn]
        have key := fun post hp1 hp2 =>
-         canonBody_loop f seq rc k hl post hp1 hp2 (seq.length + 1 - k) 0 [] (by omega)
+         canonBody_loop h seq rc k hl post hp1 hp2 (seq.length + 1 - k) 0 [] (by omega)
        simp only [cmp_eq_one]
        rw [key]
-       · rfl
        · intro r l; rfl
        · intro l; rfl)
+
+/-- a pure consumer `f`, as a history consumer: it is asked about the last item -/
+def canon_lastH (f : Bytes → Bool) : List Bytes → Bool :=
+  fun l => match l.getLast? with | some x => f x | none => true
+
+theorem canon_lastH_concat (f : Bytes → Bool) (l : List Bytes) (x : Bytes) :
+    canon_lastH f (l ++ [x]) = f x := by
+  simp [canon_lastH]
+
+theorem canon_takeThroughH_lastH (f : Bytes → Bool) (seq rc : Bytes) (k : Nat) :
+    ∀ (n i : Nat) (log : List Bytes),
+      takeThroughH (canon_lastH f) log ((List.range' i n).map (Sequtil.canonItem seq rc k))
+        = log ++ Sequtil.canonLoop f seq rc k i n := by
+  intro n
+  induction n with
+  | zero => intro i log; simp [takeThroughH, Sequtil.canonLoop]
+  | succ n ih =>
+    intro i log
+    simp only [List.range'_succ, List.map_cons, takeThroughH, canon_lastH_concat, Sequtil.canonLoop, ih]
+    cases f (Sequtil.canonItem seq rc k i) <;> simp
+
+/-- Pure consumers `f : Bytes → Bool` (asked about the current item only): the model's `canonicalLog`. -/
+theorem CanonicalSubsequences_eq (hF : GoSrc.CanonicalSubsequences_Found = true)
+    (hR : GoSrc.ReverseComplement_Found = true) (hC : GoSrc.complementByte_Found = true)
+    (tbl : List UInt8) (f : Bytes → Bool) (seq : Bytes) (k : Nat) :
+    GoSrc.CanonicalSubsequences tbl seq (k : Int)
+        (fun l => match l.getLast? with | some x => f x | none => true)
+      = Sequtil.canonicalLog tbl f seq k := by
+  show GoSrc.CanonicalSubsequences tbl seq (k : Int) (canon_lastH f) = _
+  rw [CanonicalSubsequences_hist hF hR hC tbl (canon_lastH f) seq k]
+  unfold Sequtil.canonicalLog
+  cases hrc : Sequtil.revComp tbl [] seq with
+  | none => simp [Sequtil.canonical, Sequtil.canonicalLog, hrc]
+  | some rc =>
+    rw [Mash.canonical_eq k hrc, List.range_eq_range']
+    simp only [Option.map_some, canon_takeThroughH_lastH, List.nil_append]
 
 /-- Go's `if b >= 'a' { b -= 'a' - 'A' }` -/
 def up (b : UInt8) : UInt8 := if b ≥ 97 then b - 32 else b
